@@ -23,7 +23,7 @@ CLAIMS = {
     "C03": (
         "other",
         "constant-table extraction from MIR (variant->constant matches, string-match chains, closure capture resolution) and writer/reader table comparison",
-        "Round-trip equality of arbitrary values is value-level and not decided. Decided is the necessary clause that the writer's and the reader's tables agree: the BTOR2 keyword relation is the same bijection on both sides and covers all 70 variants (incl. the token translation tables), the constant validators accept exactly the scanners' character classes, AIGER symbol prefixes/targets/index limits agree in both files, the varint reader accepts every length the writer emits, header field order and optional tail, latch reset forms, DIMACS framing words. R2 is position-sensitive where the validator is a chars() loop: the validator's automaton (with its boolean flag states) must be included in the language the scanner consumes. R4b: the varint writer's continuation-bit protocol. R10: free text (symbol names, comments, constants) is handed out verbatim - identity conversions only on what advance_with_buf returns, and only the terminator byte is cut off. R5b: only a suffix of zero counts is left out of the AIGER header (zero tests decide from the back). R11: the whole-file AIGER writers work through the circuit's fields in the order in which the parsers fill them, and every header count is taken from the field of the same name. R12: fields of a struct or variant are written in the order in which they are parsed (token-call order vs. emitting-call order, per struct/variant). R13: binary and gates - writer and reader chain the two deltas the same way and step the running code by 2. R14: BTOR2 placeholders (constants, justice conditions, symbol) are pointed at the buffer the parser filled for them. R15 (shared with C10-R1): per-item buffers are cleared before they are filled. R16: text writers never emit two numbers (or a number and a constant starting with a digit, like the terminating 0) back to back on any path (forward dataflow over each writer). R17: the DIMACS parsers hand out the header as parse_header read it, whatever the configuration. R13b (shared with C06-R6): the binary reader refuses a delta only when it is larger than its reference code - delta == code is the constant 0 as a gate input, which the writer emits. R18 (shared with C13-R3/R4): numbers of every length the writers emit are scanned in full at any look-ahead offset. R19 (shared with C01-R1): the parsers read the writers' output through look-ahead requests, never through whatever happens to be buffered. R20 (shared with C06-R2): the DIMACS readers refuse only what a declared count or the literal type excludes - default limits (literal limit = the type's maximum, no clause limit, group limit usize::MAX whatever the literal type) accept everything the writers can emit.",
+        "Round-trip equality of arbitrary values is value-level and not decided. Decided is the necessary clause that the writer's and the reader's tables agree: the BTOR2 keyword relation is the same bijection on both sides and covers all 70 variants (incl. the token translation tables), the constant validators accept exactly the scanners' character classes, AIGER symbol prefixes/targets/index limits agree in both files, the varint reader accepts every length the writer emits, header field order and optional tail, latch reset forms, DIMACS framing words. R2 is position-sensitive where the validator is a chars() loop: the validator's automaton (with its boolean flag states) must be included in the language the scanner consumes. R4b: the varint writer's continuation-bit protocol. R10: free text (symbol names, comments, constants) is handed out verbatim - identity conversions only on what advance_with_buf returns, and only the terminator byte is cut off. R5b: only a suffix of zero counts is left out of the AIGER header (zero tests decide from the back). R11: the whole-file AIGER writers work through the circuit's fields in the order in which the parsers fill them, and every header count is taken from the field of the same name. R12: fields of a struct or variant are written in the order in which they are parsed (token-call order vs. emitting-call order, per struct/variant). R13: binary and gates - writer and reader chain the two deltas the same way and step the running code by 2. R14: BTOR2 placeholders (constants, justice conditions, symbol) are pointed at the buffer the parser filled for them. R15 (shared with C10-R1): per-item buffers are cleared before they are filled. R16: text writers never emit two numbers (or a number and a constant starting with a digit, like the terminating 0) back to back on any path (forward dataflow over each writer). R17: the DIMACS parsers hand out the header as parse_header read it, whatever the configuration. R13b (shared with C06-R6): the binary reader refuses a delta only when it is larger than its reference code - delta == code is the constant 0 as a gate input, which the writer emits. R18 (shared with C13-R3/R4): numbers of every length the writers emit are scanned in full at any look-ahead offset. R19 (shared with C01-R1): the parsers read the writers' output through look-ahead requests, never through whatever happens to be buffered. R20 (shared with C06-R2): the DIMACS readers refuse only what a declared count or the literal type excludes - default limits (literal limit = the type's maximum, no clause limit, group limit usize::MAX whatever the literal type) accept everything the writers can emit. R21: both AIGER writers frame the comment section as `c` LF, text, LF on every path and alike.",
         "DESIGN.md §4 C03",
     ),
     "C04": (
@@ -35,13 +35,13 @@ CLAIMS = {
     "C05": (
         "other",
         "instance call-graph SCC analysis; taint analysis of declared numbers with guard-dominance discharge; allocation-size taint; loop progress rule; panic-site inventory with discharge classes",
-        "Decides: the workspace's instance call graph is acyclic (bounded stack); every overflow/division assert and every subtraction in parser-reachable code either has only measures of consumed input as operands or is discharged by a dominating guard, a bounded-result callee, or a listed bound; no allocation is sized by a declared number; every loop has a progress statement on every cycle; every panic-capable construct (unwrap, indexing, advance, explicit panic) is discharged by a class (scanned offsets, digits, pop-after-push, ...) or listed. Wall time, heap constants, allocator aborts and termination of Renumber::transfer on cyclic graphs are not decided. R7: a token function reports a match only after the cursor moved by a provably positive amount, so the parsers' loops over alternatives cannot spin. R2 also enumerates the integer methods of std that trap like the operators (abs, pow, neg, ...): none takes a declared number. R4: the listed reason for NonZeroU64::new(..).unwrap() is checked (digits parser unreachable from the edge on which the look-ahead primitive answered '0'); added assertions are discharged by an interval evaluator that knows dominating comparisons, return-value joins of workspace functions and byte classes. R4 also lists std functions with a hidden panic condition (String::truncate, Vec::remove, copy_from_slice, str slicing, ...): each use in parser-reachable code is reported. R8 (shared with C06-R1): range checks before lossy conversions, every lossy `as` cast listed with its bound. R4: a variable array or slice index needs a test against the length in front of the access. R2's table of believed reasons was reduced: indices found by scanning a slice are bounded by recomputing which slice was scanned and what it was cut to (rules/scanidx.py), differences in reader methods by affine execution with the methods summarised from their bodies; the premises of the remaining entries are decided by rules that run here too (R3d = C08-R8/R9 line state, R9 = C06-R4 AIGER header bounds). R10 (= C13-R1/R1b): the digit scanners never hand out a wrapped value (premise of NonZero::new(..).unwrap()). R11: an advance by X + c (c a positive constant, scanner calls peeled down to their start offset) passes over bytes a look-ahead answered on the way. R12 (= C12-R5/R10): renumbering records every transferred literal and transfers every root (premise of the unwraps in renumber_aig and of the linear walk). R4 has a class index-counts-down (a counter that starts at the slice length and is decremented in front of the access).",
+        "Decides: the workspace's instance call graph is acyclic (bounded stack); every overflow/division assert and every subtraction in parser-reachable code either has only measures of consumed input as operands or is discharged by a dominating guard, a bounded-result callee, or a listed bound; no allocation is sized by a declared number; every loop has a progress statement on every cycle; every panic-capable construct (unwrap, indexing, advance, explicit panic) is discharged by a class (scanned offsets, digits, pop-after-push, ...) or listed. Wall time, heap constants, allocator aborts and termination of Renumber::transfer on cyclic graphs are not decided. R7: a token function reports a match only after the cursor moved by a provably positive amount, so the parsers' loops over alternatives cannot spin. R2 also enumerates the integer methods of std that trap like the operators (abs, pow, neg, ...): none takes a declared number. R4: the listed reason for NonZeroU64::new(..).unwrap() is checked (digits parser unreachable from the edge on which the look-ahead primitive answered '0'); added assertions are discharged by an interval evaluator that knows dominating comparisons, return-value joins of workspace functions and byte classes. R4 also lists std functions with a hidden panic condition (String::truncate, Vec::remove, copy_from_slice, str slicing, ...): each use in parser-reachable code is reported. R8 (shared with C06-R1): range checks before lossy conversions, every lossy `as` cast listed with its bound. R4: a variable array or slice index needs a test against the length in front of the access. R2's table of believed reasons was reduced: indices found by scanning a slice are bounded by recomputing which slice was scanned and what it was cut to (rules/scanidx.py), differences in reader methods by affine execution with the methods summarised from their bodies; the premises of the remaining entries are decided by rules that run here too (R3d = C08-R8/R9 line state, R9 = C06-R4 AIGER header bounds). R10 (= C13-R1/R1b): the digit scanners never hand out a wrapped value (premise of NonZero::new(..).unwrap()). R11: an advance by X + c (c a positive constant, scanner calls peeled down to their start offset) passes over bytes a look-ahead answered on the way. R12 (= C12-R5/R10): renumbering records every transferred literal and transfers every root (premise of the unwraps in renumber_aig and of the linear walk). R4 has a class index-counts-down (a counter that starts at the slice length and is decremented in front of the access). R12 also runs C12-R16: the cycle probe of the walk stack precedes every gate-opening push.",
         "DESIGN.md §4 C05",
     ),
     "C06": (
         "other",
         "guard-dominance, def-use and control-dependence rules over MIR; affine path execution of the header bound chain; frozen oracle tables for defining positions and section counters",
-        "Numeric exactness of the decimal conversion is C13's subject. Decided: every limit the property names is installed from the right source and dominates every hand-out or narrowing: from_dimacs only behind (-limit..=limit).contains, from_code only on codes checked by lit/delta_code, lossy casts listed with their bound; DIMACS limits installed exactly when the header asks and consulted at clause attempt / clean end; AIGER max_lit = 2M+1 everywhere, defining positions, header remainder chain, section counters; inclusive operators; literal type maxima. R1 for loop variables: every assignment of the converted variable passes a range test before it can reach from_dimacs. R9 (shared with C13-R1b/R4): decimal scanning yields the exact value or None. R10: a justice literal is filed under property i only behind the test that property i holds fewer than its declared number, for the current i. R11: the declared variable count (the later literal limit) is parsed by token::var_count::<L> in all three DIMACS header parsers. R2 also: no other header count decides whether a limit is installed. R12: a number token contains at least one digit (consumed only after the scanner's end offset was found different from its start offset, decided by affine path execution through the && chains). R13: ignore_header is stored by its own setter only. R14 (= C05-R2 on flussab-aiger): sums of declared sizes cannot wrap. R2 also: without a declared group count the GCNF group limit is usize::MAX, whatever the literal type.",
+        "Numeric exactness of the decimal conversion is C13's subject. Decided: every limit the property names is installed from the right source and dominates every hand-out or narrowing: from_dimacs only behind (-limit..=limit).contains, from_code only on codes checked by lit/delta_code, lossy casts listed with their bound; DIMACS limits installed exactly when the header asks and consulted at clause attempt / clean end; AIGER max_lit = 2M+1 everywhere, defining positions, header remainder chain, section counters; inclusive operators; literal type maxima. R1 for loop variables: every assignment of the converted variable passes a range test before it can reach from_dimacs. R9 (shared with C13-R1b/R4): decimal scanning yields the exact value or None. R10: a justice literal is filed under property i only behind the test that property i holds fewer than its declared number, for the current i. R11: the declared variable count (the later literal limit) is parsed by token::var_count::<L> in all three DIMACS header parsers. R2 also: no other header count decides whether a limit is installed. R12: a number token contains at least one digit (consumed only after the scanner's end offset was found different from its start offset, decided by affine path execution through the && chains). R13: ignore_header is stored by its own setter only. R14 (= C05-R2 on flussab-aiger): sums of declared sizes cannot wrap. R2 also: without a declared group count the GCNF group limit is usize::MAX, whatever the literal type. R15 (shared with C03-R3): an AIGER symbol's index is limited by the count of its own section, and a section declared empty admits none.",
         "DESIGN.md §4 C06",
     ),
     "C07": (
@@ -77,7 +77,7 @@ CLAIMS = {
     "C12": (
         "other",
         "call-graph SCC check, def-use provenance of map keys vs. redefinition tests (sibling agreement), guard/dominance and expression-shape rules over MIR",
-        "Functional equivalence of the renumbered circuit (all circuits, all assignments, all option combinations) is value-level and NOT decided; neither are the const-fold case analysis, hash-consing or completeness of the cycle detection. Decided structural necessary conditions: no recursion (explicit stack), every kind of literal used as a key of the renumbering map passes a redefinition test yielding LitAlreadyDefined, every error variant has a producer on the right path and is propagated with `?`, inputs sorted (descending) before a gate is hashed or pushed, a fresh code before every pushed gate, inputs < latches < gates numbering order, LitMap/transfer polarity xor discipline. R5/R6 additionally decide that the literal handed back from the gate arm is the stored literal xor the polarity difference, and that every constant fold is an identity of AND on every decision path (conditions evaluated over the six representative codes). R7: source-circuit literals and renumbered literals (same type) are never compared or used in each other's place (flow-sensitive numbering tags). R8: the definition table is keyed by literals as written and every question to it covers both polarities (key-expression classes: plain / flipped / normalised). R9: literals are compared for identity only with literals of the same kind (requested literal vs. a definition's output as written). R3: the `?` on a fallible step must be reached on every way on from the call. R8 also: the definition table is read-only after lit_defs built it. R10: every root section (latch next-states, outputs, bad-state, constraints, justice, fairness) is walked with a transfer per literal on every path on which initialize returns Ok (dominance of the loop header over every Ok, transfer dominates every latch, loops left towards Ok by exhaustion only), so an undefined root yields LitNotDefined and never a later unwrap panic. R11: the constant cannot be redefined in either polarity (table seeded with literal 0 in front of every other insert, or tests excluding codes 0 and 1). R12: the conversion OrderedAig -> Aig spells out the positional names - input i = 2(i+1), latch i = 2(i+1+I), gate i = 2(i+1+I+L) - decided by affine execution of the conversion and its closures; every other field from the field of the same name. R13: the option setters of RenumberConfig store their parameter into the field of their own name. R14 (shared with C05-R5): no table of the renumbering code is sized by a declared number (max_var_index, header counts); the allocation rule covers every pre-sizable collection.",
+        "Functional equivalence of the renumbered circuit (all circuits, all assignments, all option combinations) is value-level and NOT decided; neither are the const-fold case analysis, hash-consing or completeness of the cycle detection. Decided structural necessary conditions: no recursion (explicit stack), every kind of literal used as a key of the renumbering map passes a redefinition test yielding LitAlreadyDefined, every error variant has a producer on the right path and is propagated with `?`, inputs sorted (descending) before a gate is hashed or pushed, a fresh code before every pushed gate, inputs < latches < gates numbering order, LitMap/transfer polarity xor discipline. R5/R6 additionally decide that the literal handed back from the gate arm is the stored literal xor the polarity difference, and that every constant fold is an identity of AND on every decision path (conditions evaluated over the six representative codes). R7: source-circuit literals and renumbered literals (same type) are never compared or used in each other's place (flow-sensitive numbering tags). R8: the definition table is keyed by literals as written and every question to it covers both polarities (key-expression classes: plain / flipped / normalised). R9: literals are compared for identity only with literals of the same kind (requested literal vs. a definition's output as written). R3: the `?` on a fallible step must be reached on every way on from the call. R8 also: the definition table is read-only after lit_defs built it. R10: every root section (latch next-states, outputs, bad-state, constraints, justice, fairness) is walked with a transfer per literal on every path on which initialize returns Ok (dominance of the loop header over every Ok, transfer dominates every latch, loops left towards Ok by exhaustion only), so an undefined root yields LitNotDefined and never a later unwrap panic. R11: the constant cannot be redefined in either polarity (table seeded with literal 0 in front of every other insert, or tests excluding codes 0 and 1). R12: the conversion OrderedAig -> Aig spells out the positional names - input i = 2(i+1), latch i = 2(i+1+I), gate i = 2(i+1+I+L) - decided by affine execution of the conversion and its closures; every other field from the field of the same name. R13: the option setters of RenumberConfig store their parameter into the field of their own name. R14 (shared with C05-R5): no table of the renumbering code is sized by a declared number (max_var_index, header counts); the allocation rule covers every pre-sizable collection. R15: the structural-hash index is keyed by the ordered gate itself. R16: the push that opens a gate is dominated by the probe of the walk stack for a cycle (cycles of every length are found).",
         "DESIGN.md §4 C12",
     ),
     "C13": (
